@@ -273,21 +273,25 @@ def compiler_domains(w: World) -> dict[str, dict]:
                     and n.value.func.id.startswith('_get_') and n.value.func.id != helper:
                 helper_dom[helper] = dom_of(n.value.func.id)
                 return helper_dom[helper]
-        txt = ast.unparse(hf.node)
+        import re as _re
         d = None
-        has_i2b = any(isinstance(n, ast.Call) and dotted(n.func) == 'int_to_bytes' for n in src_nodes)
-        one_byte = any(isinstance(n, ast.Assert) and 'len(val) == 1' in ast.unparse(n.test) for n in src_nodes) or \
-            'len(val) == 1' in txt and has_i2b and any(isinstance(n, ast.Assert) for n in src_nodes)
-        u8 = any(isinstance(n, ast.Compare) and ast.unparse(n).replace(' ', '') in ('0<=val<256',)
-                 for n in src_nodes)
+        i2b_targets = {n.targets[0].id for n in src_nodes if isinstance(n, ast.Assign) and isinstance(n.targets[0], ast.Name)
+                       and isinstance(n.value, ast.Call) and dotted(n.value.func) == 'int_to_bytes'}
+        has_i2b = bool(i2b_targets)
+        one_byte = any(isinstance(n, ast.Assert) and
+                       any(ast.unparse(n.test).replace(' ', '') == f'len({t})==1' for t in i2b_targets)
+                       for n in src_nodes)
+        cmps = [ast.unparse(n).replace(' ', '') for n in src_nodes if isinstance(n, ast.Compare)]
+        u8 = any(_re.fullmatch(r'0<=\w+<256', c) for c in cmps)
+        lt256 = [c for c in cmps if _re.fullmatch(r'\w+<256', c)]
         if has_i2b and one_byte:
             d = 's8'
         elif u8:
             d = 'u8'
         elif has_i2b:
             d = 'any'
-        elif any(isinstance(n, ast.Compare) and 'count < 256' in ast.unparse(n) for n in src_nodes):
-            d = 'u8'
+        elif len(lt256) >= 2:
+            d = 'u8'        # WRITE_CACHE: size < 256 and count < 256, count printed as d<u8>
         helper_dom[helper] = d
         return d
 
@@ -406,6 +410,15 @@ def _emission(w, rep, armtag, names, body):
     parsed).  A conditional `} ELSE {` would make the compiler choose OP_IF instead of
     OP_IF_ELSE."""
     conds = []
+    # the listing is what decompile_script returns; emitters are its nested helper functions
+    dfi = w.repo.func('parsing', 'decompile_script')
+    listing = None
+    for n in dfi.node.body:
+        if isinstance(n, ast.Return) and isinstance(n.value, ast.Name):
+            listing = n.value.id
+    emitters = {n.name for n in dfi.node.body if isinstance(n, ast.FunctionDef)}
+    if listing is None or not emitters:
+        raise AnalysisError('decompile_script: listing variable / emit helpers not recognised')
 
     def rec(stmts, under):
         for st in stmts:
@@ -416,9 +429,9 @@ def _emission(w, rep, armtag, names, body):
                 rec(getattr(st, 'body', []), under + [st])
             else:
                 emits = [x for x in ast.walk(st) if isinstance(x, ast.Call) and (
-                    (isinstance(x.func, ast.Name) and x.func.id in ('add_line', 'add_lines')) or
+                    (isinstance(x.func, ast.Name) and x.func.id in emitters) or
                     (isinstance(x.func, ast.Attribute) and x.func.attr in ('extend', 'append')
-                     and dotted(x.func.value) == 'code_lines'))]
+                     and dotted(x.func.value) == listing))]
                 if emits and under:
                     conds.append((under, emits[0]))
     rec(body, [])
@@ -428,9 +441,15 @@ def _emission(w, rep, armtag, names, body):
         if names == ['OP_TRY_EXCEPT'] and len(under) == 1 and isinstance(under[0], ast.Name):
             # the compiler side of the idiom
             pt = w.repo.func('parsing', 'parse_try')
-            txt = ast.unparse(pt.node).replace(' ', '')
-            if 'ifexcept_len==0:' in txt and "code+=except_len.to_bytes(2,'big')" in txt:
-                allowed = True
+            for n in ast.walk(pt.node):
+                # `if <len> == 0: code += <len>.to_bytes(2, 'big')`: an absent EXCEPT is re-created empty
+                if isinstance(n, ast.If) and isinstance(n.test, ast.Compare) and isinstance(n.test.left, ast.Name) \
+                        and isinstance(n.test.ops[0], ast.Eq) and isinstance(n.test.comparators[0], ast.Constant) \
+                        and n.test.comparators[0].value == 0:
+                    v = n.test.left.id
+                    body = ast.unparse(ast.Module(body=n.body, type_ignores=[])).replace(' ', '')
+                    if f"+={v}.to_bytes(2,'big')" in body:
+                        allowed = True
         if not allowed:
             ok = False
             why = (f'`{ast.unparse(emit)[:40]}` is emitted only under a condition: on the other path operand bytes that '
